@@ -382,11 +382,17 @@ Lemma stream_holds :
   spec_C18 w_stream (run_C18 w_stream) = true /\ known_C18 w_stream = [] /\
   run_trace w_stream = [TW []; TW [(1%N, 1%N, 0)]; TE [(1%N, 1%N, 0)]; TQ].
 Proof. vm_compute. repeat split; reflexivity. Qed.
-(* what remains refuted: a write that leaves a changed key unmarked (C09 class 6) is never announced *)
+(* the former witness of an unmarked key (C09 class 6, repaired by 9b19d99): announced *)
 Definition w_unmarked : c18case :=
   CSeq 1000 [ATick 1010; AIngest (SNodes 1 [sn 1 1 5000 1; sn 2 1 6000 2]); ACompute;
              AIngest (SNodes 1 [sn 1 2 (D + 7000) 3]); ACompute].
-Lemma unmarked_refuted : spec_C18 w_unmarked (run_C18 w_unmarked) = false /\ known_C18 w_unmarked = [3].
+Lemma unmarked_holds : spec_C18 w_unmarked (run_C18 w_unmarked) = true /\ known_C18 w_unmarked = [].
+Proof. vm_compute. split; reflexivity. Qed.
+(* the former witness of C09 class 7 (an edge tombstone replaced under another source entity,
+   repaired by de0967d): announced *)
+Definition w_edge_tombstone18 : c18case :=
+  CSeq 1000 [ATick 1010; AIngest (SDelEdges [etomb 1 1]); ACompute; AIngest (SDelEdges [etomb 2 2]); ACompute].
+Lemma edge_tombstone_holds : spec_C18 w_edge_tombstone18 (run_C18 w_edge_tombstone18) = true /\ known_C18 w_edge_tombstone18 = [].
 Proof. vm_compute. split; reflexivity. Qed.
 
 (* a sequential mix over two days and two rooms: nothing known, every change announced *)
@@ -399,6 +405,32 @@ Lemma seq_nonvacuous :
   length (filter (fun e => match e with TE (_ :: _) => true | _ => false end) (run_trace w_seq)) = 5%nat.
 Proof. vm_compute. repeat split; reflexivity. Qed.
 
+(* the statement at full strength against the model; what is proved is seq_holds_env below: it holds
+   for every program inside the envelope of C09P.all_writes_cover (no class hypothesis) *)
 Definition C18_full : Prop := forall c, spec_C18 c (run_C18 c) = true.
-Lemma full_refuted : ~ C18_full.
-Proof. intro H. specialize (H w_unmarked). destruct unmarked_refuted as [E _]. rewrite E in H. discriminate. Qed.
+
+(* ------------------------------------------------------------------ no class hypothesis left *)
+Fixpoint batches_env (s : state) (bs : list (list msg)) : Prop :=
+  match bs with [] => True | b :: t => batch_env s b /\ batches_env (fst (exec_batch (s, []) b)) t end.
+Fixpoint prog_env (s : state) (p : list api) : Prop :=
+  match p with [] => True | a :: t => batches_env s (batches_of a) /\ prog_env (fst (trace_api (s, []) a)) t end.
+
+Lemma batches_env_covered : forall bs s, batches_env s bs -> batches_covered s bs.
+Proof.
+  induction bs as [|b t IH]; intros s H; [exact I|]. destruct H as [Hb Ht].
+  split; [apply batch_env_covered; exact Hb | apply IH; exact Ht].
+Qed.
+Lemma prog_env_ok : forall p s, prog_env s p -> prog_ok s p.
+Proof.
+  induction p as [|a t IH]; intros s H; [exact I|]. destruct H as [Ha Ht].
+  split; [apply batches_env_covered; exact Ha | apply IH; exact Ht].
+Qed.
+Theorem seq_holds_env : forall t0 prog, prog_env (init t0) prog ->
+  spec_C18 (CSeq t0 prog) (run_C18 (CSeq t0 prog)) = true.
+Proof.
+  intros t0 prog H. unfold spec_C18, run_C18.
+  rewrite dec_trace_enc; [|apply enc_trace_length].
+  unfold run_trace, trace_prog.
+  destruct (fold_left trace_api prog (init t0, [])) as [s' tr'] eqn:E. cbn [snd].
+  eapply seq_announced; [| |apply prog_env_ok; exact H|exact E]; [reflexivity | intros k []].
+Qed.
